@@ -43,10 +43,23 @@ POSITIONS = {
     "having": "{Q}.from_(T('t')).select(fn.Max(T('t').a)).groupby(T('t').b).having(fn.Max(T('t').a) == {v})",
     "join_on": "{Q}.from_(T('t')).join(T('u')).on((T('t').a == T('u').a) & (T('u').b == {v})).select(T('t').a)",
     "alias_val": "{Q}.from_(T('t')).select(VW({v}).as_('lit'))",
+    # values inside the body of a WITH entry, of a FROM sub-query and of a set-operation operand
+    "with_body": "{Q}.with_({Q}.from_(T('w')).select(T('w').a).where(T('w').b == {v}), 'cte1').from_(AliasedQuery('cte1')).select('a')",
+    "subquery_from": "{Q}.from_({Q}.from_(T('w')).select(T('w').a).where(T('w').b == {v}).as_('sq')).select('a')",
+    "setop_operand": "{Q}.from_(T('t')).select(T('t').a).union({Q}.from_(T('u')).select(T('u').a).where(T('u').b == {v}))",
 }
 DIALECT_POSITIONS = {
-    "mysql": {"on_duplicate": "MySQLQuery.into(T('t')).insert(1, 'x').on_duplicate_key_update(T('t').b, {v})"},
-    "postgresql": {"on_conflict": "PostgreSQLQuery.into(T('t')).insert(1, 'x').on_conflict(T('t').a).do_update(T('t').b, {v})"},
+    # statement-level vendor clauses around a value (a hint spliced into the finished text, modifiers, TOP, FINAL …)
+    "vertica": {"hint_cmp": "VerticaQuery.from_(T('t')).select(T('t').a).where(T('t').b == {v}).hint('lbl')",
+                "hint_with": "VerticaQuery.with_(VerticaQuery.from_(T('w')).select(T('w').a).where(T('w').b == {v}), 'cte1').from_(AliasedQuery('cte1')).select('a').hint('lbl')",
+                "hint_insert": "VerticaQuery.into(T('t')).insert(1, {v}).hint('lbl')"},
+    "mssql": {"top_cmp": "MSSQLQuery.from_(T('t')).select(T('t').a).where(T('t').b == {v}).top(3).limit(2)"},
+    "clickhouse": {"final_cmp": "ClickHouseQuery.from_(T('t')).select(T('t').a).final().sample(5).where(T('t').b == {v}).limit_by(1, T('t').a)"},
+    "mysql": {"on_duplicate": "MySQLQuery.into(T('t')).insert(1, 'x').on_duplicate_key_update(T('t').b, {v})",
+              "modifier_cmp": "MySQLQuery.from_(T('t')).select(T('t').a).modifier('SQL_CALC_FOUND_ROWS').where(T('t').b == {v}).for_update(of=('t',))"},
+    "postgresql": {"on_conflict": "PostgreSQLQuery.into(T('t')).insert(1, 'x').on_conflict(T('t').a).do_update(T('t').b, {v})",
+                   "conflict_where": "PostgreSQLQuery.into(T('t')).insert(1, 'x').on_conflict(T('t').a).where(T('t').b == {v}).do_nothing()",
+                   "returning_val": "PostgreSQLQuery.into(T('t')).insert(1, 'x').returning(VW({v}), T('t').a)"},
 }
 DDL_POSITIONS = {
     "column_default": "Query.create_table('t').columns(Column('a', 'VARCHAR(10)', default={v}), Column('b', 'INT'))",
